@@ -276,7 +276,7 @@ def _len_interval(r: Row, lm: ListenerModel):
             lo = max(lo, iv[0])
             hi = iv[1] if hi is None else (hi if iv[1] is None else min(hi, iv[1]))
     for a, v in r.outcome.conds:
-        if a[0] == "nonempty" and nf.nf(a[1]) in (A, ("map", ("text", IT), A)):
+        if a[0] in ("nonempty", "truthy") and nf.nf(a[1]) in (A, ("map", ("text", IT), A)):
             if v:
                 lo = max(lo, 1)
             else:
